@@ -222,6 +222,7 @@ pub trait StorageTxn: Send {
     fn is_empty(&mut self) -> (r: Result<bool>)
         requires old(self).inv(),
         ensures final(self).inv(), final(self).st() == old(self).st(), final(self).stored() == old(self).stored(),
+            //@ob C01 C02 C12 C20 StorageTxn::is_empty.true-exactly-for-a-replica-with-no-tasks,-no-working-set-entry,-a-nil-base-version-and-no-pending-operation
             match r { Ok(b) => b == is_empty_view(old(self).st()), Err(e) => storage_err(e) },
     {
         let mut empty = true;
